@@ -1,7 +1,8 @@
 #!/bin/bash
 # verify_seed.sh <seed dir> <worktree>: confirms a seeded change in a scratch worktree:
 #  demo passes on the unchanged code, patch applies and builds, demo fails with the patch, goflow's own suite still passes.
-SEED=$1; WT=$2
+SEED=$1; WT=$2; RACEFLAG=${RACE:+-race}
+TMPD=$(mktemp -d /tmp/vs_XXXXXX); trap "rm -rf $TMPD" EXIT
 export GOFLAGS=-mod=mod GOPROXY=off GOSUMDB=off GOTOOLCHAIN=local
 cd "$WT" || exit 2
 git checkout -q -- . ; git clean -fdq -- . 2>/dev/null
@@ -9,14 +10,14 @@ PKG=$(head -3 "$SEED/demo_test.go" | grep -oE '(flows|excellent|contactql|envs|u
 [ -d "$WT/$PKG" ] || { echo "cannot determine package dir ($PKG)"; exit 2; }
 cp "$SEED/demo_test.go" "$WT/$PKG/zz_seed_demo_test.go"
 echo "package dir: $PKG"
-go test -vet=off -count=1 -run 'Seed' ./$PKG/ > /tmp/vs_clean.txt 2>&1; RC_CLEAN=$?
+go test $RACEFLAG -vet=off -count=1 -run 'Seed' ./$PKG/ > $TMPD/clean.txt 2>&1; RC_CLEAN=$?
 git apply "$SEED/patch.diff" || { echo "PATCH DOES NOT APPLY"; rm -f "$WT/$PKG/zz_seed_demo_test.go"; exit 1; }
 go build ./... || { echo "DOES NOT BUILD"; git checkout -q -- .; rm -f "$WT/$PKG/zz_seed_demo_test.go"; exit 1; }
-go test -vet=off -count=1 -run 'Seed' ./$PKG/ > /tmp/vs_patched.txt 2>&1; RC_PATCHED=$?
+go test $RACEFLAG -vet=off -count=1 -run 'Seed' ./$PKG/ > $TMPD/patched.txt 2>&1; RC_PATCHED=$?
 rm -f "$WT/$PKG/zz_seed_demo_test.go"
 SUITE=$(/verif/tools/repo_suite.sh "$WT" | tail -1)
 git checkout -q -- . ; git checkout -q -- go.sum 2>/dev/null
 echo "demo on clean tree: rc=$RC_CLEAN (want 0); demo with patch: rc=$RC_PATCHED (want !=0); suite with patch: $SUITE"
 if [ $RC_CLEAN -eq 0 ] && [ $RC_PATCHED -ne 0 ] && [[ "$SUITE" == *"ok"* ]]; then echo "SEED CONFIRMED"; exit 0; fi
-tail -5 /tmp/vs_clean.txt; tail -5 /tmp/vs_patched.txt
+tail -5 $TMPD/clean.txt; tail -5 $TMPD/patched.txt
 echo "SEED NOT CONFIRMED"; exit 1
